@@ -1,6 +1,7 @@
 import IpcModel.Ledger.LP
 import IpcModel.Ideal
 import IpcModel.Lemmas.RefineRun
+import IpcModel.Timed
 /-!
 # C03 — disconnection is reported exactly when no sender can exist any more
 
@@ -68,5 +69,13 @@ theorem C03_held_sender_connected (st : St) (c : Nat) (ch : Chan) (hc : st.chans
 still `empty`; after the carrying receiver is dropped — `disconnected` -/
 example : (Ideal.run [.newChan, .newChan, .send 0 1 [.snd 1], .dropSender 1, .recv 1, .dropReceiver 0, .recv 1]).2
     = [.ok, .ok, .ok, .ok, .empty, .ok, .disconnected] := by decide
+
+/-- **C03_eof_confirmed** — "only after every message sent before that has been delivered", at the level of one receive call on the kernel
+socket: the kernel can report end of file while a packet queued by a peer that closed right afterwards is still queued; the
+source confirms an end of file with a second look (`Gen.shape_eofConfirmed`), and then `disconnected` is answered only when
+the queue is empty and no sender is left, in every receive mode, race or no race. -/
+theorem C03_eof_confirmed (k : Timed.K) (m : Timed.Mode) (b race : Bool) (h : (Timed.recvFirstR k m b race).1 = .disconnected) :
+    k.queue = [] ∧ k.peerAlive = false ∧ Gen.shape_eofConfirmed = true :=
+  ⟨(Timed.disconnected_only_when_drained k m b race h).1, (Timed.disconnected_only_when_drained k m b race h).2, by decide⟩
 
 end C03
